@@ -7,7 +7,7 @@ from drivers import _http_world as H
 from drivers.c14 import TICK_S, TTL_TICKS, consts
 from vf import table
 from vf.core import Ctx
-from vf.tlc import render_cfg, require_ok, run_tlc, sany
+from vf.tlc import MachineryError, render_cfg, require_ok, run_tlc, sany
 
 META = {
     "engine": "http",
@@ -76,13 +76,20 @@ def _variants(tok: bytes, mut: str, rng, quick: bool, other_kind: bytes, other_s
 def run(ctx: Ctx) -> None:
     wd = ctx.wd.stage("http")
     sany(wd, "HttpStream")
-    r = run_tlc(wd, "HttpStream", render_cfg(constants=consts(3, False, "{0, 1}", max_clock=4, fix=(True, True, True)),
+    r = run_tlc(wd, "HttpStream", render_cfg(constants=consts(3, False, "{0, 1}", max_clock=4, fix=(True, True, True, True)),
                                              invariants=["TypeOK", "ServedOnlyGenuinePair", "ServedImpliesColdOK", "HitSameIdentity"]), timeout=1500)
     ctx.add_tlc("HttpStream exhaustive (intended design incl. FixHitChecksCall)", r)
     require_ok(r, "HttpStream ServedOnlyGenuinePair")
-    ascoded = run_tlc(wd, "HttpStream", render_cfg(constants=consts(2, False, "{1}", max_clock=0, streams=2, fix=(True, True, False)),
-                                                   invariants=["ServedOnlyGenuinePair"]))
-    ctx.extra["design_as_coded_violates"] = ascoded.violated   # the hit path does not consult the call token (known finding)
+    ascoded = run_tlc(wd, "HttpStream", render_cfg(constants=consts(2, False, "{1}", max_clock=0, streams=2, fix=(True, True, True, False)),
+                                                   invariants=["ServedOnlyWithOwnOrNoCall", "ServedOnlyGenuinePair"]))
+    ctx.extra["design_as_coded_violates"] = ascoded.violated   # a hit is honoured without a call token (known finding)
+    if ascoded.violated != "ServedOnlyGenuinePair":
+        raise MachineryError(f"the as-coded design should violate only ServedOnlyGenuinePair, TLC says {ascoded.violated} {ascoded.error}")
+    asfound = run_tlc(wd, "HttpStream", render_cfg(constants=consts(3, False, "{2}", max_clock=0, streams=2, fix=(True, True, False, False)),
+                                                   invariants=["ServedOnlyWithOwnOrNoCall"]))
+    ctx.extra["design_as_found_violates"] = asfound.violated   # before 4f2decc a hit ignored the call token altogether
+    if asfound.violated != "ServedOnlyWithOwnOrNoCall":
+        raise MachineryError(f"the as-found design should violate ServedOnlyWithOwnOrNoCall, TLC says {asfound.violated} {asfound.error}")
     cases = table.enumerate_cases(ctx, "http", "TokenForge", invariants=["OnlyUntouchedServed", "ExpiredNeverServed", "CacheIrrelevant"])
     ctx.exhaustive = True
     ctx.rule = ("case = one continuation/cancel request carrying one concretely manipulated token; non-trivial = distinct "
